@@ -16,4 +16,7 @@ open XotModel.Props
 #print axioms C09_fullname_false_element
 #print axioms C09_node_name_ref
 #print axioms C09_inherited_sound
+#print axioms C09_unresolved_recursive
+#print axioms C09_unresolved_reports_no_namespace
+#print axioms C09_unresolved_reports_xml_namespace
 #print axioms C09_stack_invariant
